@@ -395,3 +395,56 @@ func GenSCCapacity(r *rand.Rand) SCHist {
 	}
 	return h
 }
+
+// GenSCCommitOrders enumerates the structured commit-order family: the block tree g <- A <- B <- C, A <- S, every
+// assignment of {nothing, write, removal} of one key to the four blocks (removals go through a transaction), every
+// order of the four commits, and after every commit a lookup at every block hash (state level and query cache).
+func GenSCCommitOrders() []SCHist {
+	type blk struct{ obj, hash, prev string }
+	tree := []blk{{"bA", "hA", "genesis"}, {"bB", "hB", "hA"}, {"bC", "hC", "hB"}, {"bS", "hS", "hA"}}
+	var perms [][]int
+	var rec func(cur []int, used int)
+	rec = func(cur []int, used int) {
+		if len(cur) == 4 {
+			perms = append(perms, append([]int(nil), cur...))
+			return
+		}
+		for i := 0; i < 4; i++ {
+			if used&(1<<i) == 0 {
+				rec(append(cur, i), used|1<<i)
+			}
+		}
+	}
+	rec(nil, 0)
+	var out []SCHist
+	vts := []string{"mut", "leaf", "string"}
+	for a := 0; a < 81; a++ {
+		for pi, perm := range perms {
+			h := SCHist{Small: true, ValType: vts[(a+pi)%len(vts)]}
+			x := a
+			for i, b := range tree {
+				h.Ops = append(h.Ops, SCOp{Op: "newblock", B: b.obj, H: b.hash, P: b.prev})
+				switch x % 3 {
+				case 1:
+					h.Ops = append(h.Ops, SCOp{Op: "bset", B: b.obj, K: "k1", V: fmt.Sprintf("v%d", i)})
+				case 2:
+					t := fmt.Sprintf("t%d", i)
+					h.Ops = append(h.Ops, SCOp{Op: "newtxn", T: t, B: b.obj}, SCOp{Op: "tremove", T: t, K: "k1"}, SCOp{Op: "tcommit", T: t})
+				}
+				x /= 3
+			}
+			for _, i := range perm {
+				h.Ops = append(h.Ops, SCOp{Op: "bcommit", B: tree[i].obj})
+				for j, b := range tree {
+					op := "sget"
+					if (i+j)%2 == 1 {
+						op = "qget"
+					}
+					h.Ops = append(h.Ops, SCOp{Op: op, H: b.hash, K: "k1"})
+				}
+			}
+			out = append(out, h)
+		}
+	}
+	return out
+}
